@@ -37,7 +37,8 @@ struct LThread {
    bool fireTimeout;     // DIRECTED: the controller wants the pending timed wait to time out
    bool timedOutNow;     // set when the scheduler made the last wait of this thread time out
    long userTag;         // free for the harness
-   LThread() : id(-1), finished(false), kind(0), obj(NULL), timed(false), threadObj(NULL), depth(0), fireTimeout(false), timedOutNow(false), userTag(0) {}
+   long arg;             // argument of the yield the thread is at / was last at
+   LThread() : id(-1), finished(false), kind(0), obj(NULL), timed(false), threadObj(NULL), depth(0), fireTimeout(false), timedOutNow(false), userTag(0), arg(0) {}
 };
 
 struct State {
@@ -147,7 +148,7 @@ static inline int Yield(int kind, const void * obj, long arg)
          else {const int n = PickRandom(NULL); if (n < 0) EndOrDeadlock(); else {S.decisions.push_back(n); S.running = n; S.LT[n]->cv.notify_one();}}
          return 0; }
       default: break; }
-   me->kind = kind; me->obj = obj; me->timed = (((kind == YIELD_WC_WAIT)||(kind == YIELD_SOCK_WAIT))&&(arg != 0)); me->timedOutNow = false;
+   me->kind = kind; me->obj = obj; me->arg = arg; me->timed = (((kind == YIELD_WC_WAIT)||(kind == YIELD_SOCK_WAIT))&&(arg != 0)); me->timedOutNow = false;
    if (S.onYield) S.onYield(me, kind, obj, arg);
 
    int next;
